@@ -12,7 +12,7 @@ MOD == 65536
 Off(v, start) == (v + MOD - start) % MOD
 RECURSIVE Cat(_, _)
 Cat(ss, i) == IF i > Len(ss) THEN <<>> ELSE ss[i] \o Cat(ss, i + 1)
-Need(n, mtu) == (n + (mtu - 12) - 1) \div (mtu - 12)
+Need(n, mtu) == IF n >= 100000 THEN n - 100000 ELSE (n + (mtu - 12) - 1) \div (mtu - 12)      \* 100000 + c: GeneratePadding(c)
 RECURSIVE Sum(_, _)
 Sum(s, i) == IF i > Len(s) THEN 0 ELSE s[i] + Sum(s, i + 1)
 Reason(e) ==
